@@ -5,6 +5,7 @@ import Driver.Decision
 import Driver.Reduce
 import Driver.Lineage
 import Driver.Front
+import Driver.Meta
 /-
   oxidriver: line protocol over the executable model.
   One request per line: `<op> <arg> ...`; one answer line per request.
@@ -12,7 +13,7 @@ import Driver.Front
 -/
 namespace Driver
 
-def handlers : List (List String → Option String) := [handleFilters, handleGeom, handleEval, handleDecision, handleReduce, handleLineage, handleFront]
+def handlers : List (List String → Option String) := [handleFilters, handleGeom, handleEval, handleDecision, handleReduce, handleLineage, handleFront, handleMeta]
 
 def handle (args : List String) : String :=
   match handlers.findSome? (fun h => h args) with
